@@ -21,7 +21,7 @@ REASON = {
 def run(ctx):
     q = not ctx.thorough
     for cfg in (["quick", "quick3"] if q else ["full2", "thorough", "thorough_live"]):
-        ctx.tlc_mc("MC_TransferSync", f"MC_TransferSync_{cfg}.cfg", must_cover=["WEnter", "WWake", "Expire", "SStep"], timeout=3000)
+        ctx.tlc_mc("MC_TransferSync", f"MC_TransferSync_{cfg}.cfg", must_cover=["WEnter", "WWake", "SStep"] + ([] if cfg.endswith("live") else ["Expire"]), timeout=3000)
     for n in ["Ack", "Cancel", "Advance", "Resume"]:
         ctx.tlc_mc("MC_TransferSync", f"MC_TransferSync_no{n}.cfg", expect_violation="NoLostWakeup", timeout=300)
     ctx.coverage["checker_cmd"] = "tlc -workers 8 -coverage 1 -config spec/MC_TransferSync_*.cfg spec/MC_TransferSync.tla"
